@@ -461,7 +461,7 @@ func c18exec(seq []tcall, impl c18impl, seqNo int, res *core.CaseResult, verbose
 	if p := core.Recover(func() {
 		txn.Set("z", recordOf("late"), blob.NewBytes([]byte("late")))
 		txn.Set("x", nil, nil)
-		_, _ = txn.Commit(context.Background())
+		// (no second Commit: it would release a store the first one forgot to release)
 	}); p == "" {
 		res.Count("late_calls_after_commit", 1)
 	}
